@@ -21,6 +21,10 @@ import (
 func pickI(r *rand.Rand, xs ...int64) int64 { return xs[r.IntN(len(xs))] }
 
 func w4Gen(r *rand.Rand, prop, tier string) *simrt.Case {
+	switch prop {
+	case "C30", "C31", "C32":
+		return w5Gen(r, prop, tier)
+	}
 	c := &simrt.Case{Config: map[string]int64{}}
 	cfg := c.Config
 	cfg["brokers"] = int64(2 + r.IntN(2))
@@ -127,6 +131,8 @@ type w4req struct {
 	tps    []string            // requested topic-partitions in request order ("topic/part"; by-id requests use the resolved name)
 	marker map[string]string   // produce: tp -> marker
 	ids    map[string][16]byte // fetch v13: tp topic -> id
+
+	lfsParts []w5sentPart // lfs-produce: what was sent, per partition
 }
 
 func (w *w4) existingTopics() []string {
@@ -260,6 +266,9 @@ func (w *w4) buildRequests(id int, ops []simrt.Op) ([]*w4req, []byte, simrt.Op) 
 			r.Version = 3
 			r.CoordinatorKey = fmt.Sprintf("g%d", seq)
 			q.req = r
+		case "lfs-produce":
+			w.buildLFSProduce(id, seq, op, rr, q)
+			w.lfsReqs = append(w.lfsReqs, q)
 		default:
 			continue
 		}
@@ -287,6 +296,13 @@ func stepAt(marks []simnet.Mark, off int, first bool) int {
 }
 
 func (w *w4) client(id int, ops []simrt.Op) {
+	for _, op := range ops {
+		switch op.Kind {
+		case "http-upload", "http-mp", "http-download", "resolve", "unwrap":
+			w.httpClient(id, ops)
+			return
+		}
+	}
 	reqs, stream, connOp := w.buildRequests(id, ops)
 	if connOp.A > 0 {
 		simrt.Sleep(timeMs(connOp.A))
@@ -343,6 +359,8 @@ func (w *w4) client(id int, ops []simrt.Op) {
 		invoke := stepAt(conn.ReadMarks, q.start, true)
 		ret := stepAt(conn.WriteMarks, f.off, false)
 		switch q.kind {
+		case "lfs-produce":
+			w.sim.Probe("c31.produce-reply")
 		case "produce":
 			if q.acks == 0 {
 				// (an error reply to an acks=0 produce, e.g. while not ready, is outside C27's statement)
@@ -506,6 +524,10 @@ func (w *w4) judgeFetch(id int, q *w4req, resp *kmsg.FetchResponse) {
 }
 
 func (w *w4) finish() {
+	if w.prop == "C31" {
+		w.judgeRewrites()
+		return
+	}
 	if w.prop != "C27" {
 		return
 	}
